@@ -2,6 +2,7 @@ package props
 
 import (
 	"fmt"
+	"strings"
 	"testing"
 
 	rn "github.com/Trisia/randomness"
@@ -19,17 +20,34 @@ func checkC03(c statCase) (Outcome, error) {
 	what := fmt.Sprintf("%s param=%d forward=%v n=%d family=%s", c.Test, c.M, c.Flag, n, c.Seq.Family)
 	out := Outcome{Classes: seqClasses(statCase{Test: c.Test, Seq: c.Seq}, n)}
 	var gp, gq, wp, wq float64
-	switch c.Test {
+	byteEntry := strings.HasSuffix(c.Test, "Bytes") // the byte entry point on the packed sequence (n is a multiple of 8 then)
+	if byteEntry {
+		what += " (byte entry point)"
+		out.Classes = append(out.Classes, "byte-entry-point")
+	}
+	switch strings.TrimSuffix(c.Test, "Bytes") {
 	case "binderiv":
-		gp, gq = rn.BinaryDerivativeProto(bits, c.M)
+		if byteEntry {
+			gp, gq = rn.BinaryDerivativeTestBytes(gen.Pack(bits), c.M)
+		} else {
+			gp, gq = rn.BinaryDerivativeProto(bits, c.M)
+		}
 		wp, wq = ref.BinDeriv(bits, c.M)
 		out.Classes = append(out.Classes, fmt.Sprintf("k=%d", c.M))
 	case "autocorr":
-		gp, gq = rn.AutocorrelationProto(bits, c.M)
+		if byteEntry {
+			gp, gq = rn.AutocorrelationTestBytes(gen.Pack(bits), c.M)
+		} else {
+			gp, gq = rn.AutocorrelationProto(bits, c.M)
+		}
 		wp, wq = ref.Autocorr(bits, c.M)
 		out.Classes = append(out.Classes, fmt.Sprintf("d=%d", c.M))
 	case "cusum":
-		gp, gq = rn.CumulativeTest(bits, c.Flag)
+		if byteEntry {
+			gp, gq = rn.CumulativeTestBytes(gen.Pack(bits), c.Flag)
+		} else {
+			gp, gq = rn.CumulativeTest(bits, c.Flag)
+		}
 		wp = ref.Cusum(bits, c.Flag)
 		wq = wp
 		// decile of log(Z)/log(n)
@@ -71,7 +89,7 @@ func checkC03(c statCase) (Outcome, error) {
 		return out, fmt.Errorf("unknown test %q", c.Test)
 	}
 	out.NonTrivial = nontrivialP(wp)
-	return out, cmpPQ(c.Test, what, gp, gq, wp, wq, "C03")
+	return out, cmpPQ(strings.TrimSuffix(c.Test, "Bytes"), what, gp, gq, wp, wq, "C03")
 }
 
 func genC03(t *rapid.T) statCase {
@@ -87,6 +105,10 @@ func genC03(t *rapid.T) statCase {
 	case "cusum":
 		c.Flag = rapid.Bool().Draw(t, "forward")
 		fams = append([]string{"walk", "walk", "walk", "transition"}, gen.Families...)
+	}
+	if rapid.IntRange(0, 3).Draw(t, "byte_entry") == 0 {
+		n = (n + 7) / 8 * 8
+		c.Test += "Bytes"
 	}
 	c.Seq = gen.DrawSeq(t, n, fams)
 	if test == "autocorr" && rapid.IntRange(0, 3).Draw(t, "tile") == 0 {
@@ -137,6 +159,13 @@ func TestC03Sweep(t *testing.T) {
 		for _, d := range []int{1, 2, 8, 16, 32} {
 			cases = append(cases, statCase{Test: "autocorr", M: d, Seq: gen.Seq{Family: "uniform", N: n, Seed: uint64(n + d)}})
 		}
+	}
+	// byte entry points on samples of decreasing length (a long sample first, then ever shorter ones in the same process)
+	for _, n := range []int{1000000, 20000, 1000, 104, 20000, 128} {
+		cases = append(cases, statCase{Test: "binderivBytes", M: 7, Seq: gen.Seq{Family: "uniform", N: n, Seed: uint64(n + 1)}},
+			statCase{Test: "autocorrBytes", M: 16, Seq: gen.Seq{Family: "uniform", N: n, Seed: uint64(n + 2)}},
+			statCase{Test: "cusumBytes", Flag: true, Seq: gen.Seq{Family: "uniform", N: n, Seed: uint64(n + 3)}},
+			statCase{Test: "cusumBytes", Flag: false, Seq: gen.Seq{Family: "biased", N: n, Seed: uint64(n + 4), F: 0.49}})
 	}
 	enumerate(t, "C03", cases, checkC03)
 }
